@@ -4,7 +4,7 @@
 From Coq Require Import String Ascii List Bool Arith ZArith.
 Import ListNotations.
 Require Import Generated PyBase PyStr Lex Format Symbols Split SplitFacts SplitChunks SplitChunksFacts Merge ParseEq ParseEqFacts
-               ParseModel ParseModelFacts ParseModelExamples ParseContribFacts FormatDecideFacts SplitInsertFacts.
+               ParseModel ParseModelFacts ParseModelExamples ParseContribFacts FormatDecideFacts SplitInsertFacts MergeUniqueFacts ParseCountFacts.
 Open Scope string_scope.
 
 Definition ordinary : string :=
@@ -78,3 +78,15 @@ Proof. vm_compute. repeat split; reflexivity. Qed.
 Example blank_inside_fence_matters :
   parse_model_nocheck (lines ["```"; "x = 1"; ""; "```"]) <> parse_model_nocheck (lines ["```"; "x = 1"; "```"]).
 Proof. vm_compute. discriminate. Qed.
+
+(* model_equation_count on the finding witnesses: distinct equation-carrying names + verbatim statements *)
+Definition eq_names (s : string) : list string := emit_names (concat (stmt_symbols s)).
+Example count_duplicates : eq_names duplicate_statements = ["Y"; "Y"] /\ count_new [] (eq_names duplicate_statements) = 1.
+Proof. vm_compute. split; reflexivity. Qed.
+Example count_two_lhs : eq_names "Y,Z = 1,2" = ["Y"; "Z"] /\ count_new [] (eq_names "Y,Z = 1,2") = 2.
+Proof. vm_compute. split; reflexivity. Qed.
+Example count_called_name : eq_names "Y = Y(1)" = [] /\ count_new [] (eq_names "Y = Y(1)") = 0.
+Proof. vm_compute. split; reflexivity. Qed.
+Example count_ordinary :
+  count_new [] (eq_names ordinary) = 2 /\ length (filter backticked (fst (split_M ordinary))) = 1 /\ accepted_emits ordinary = Some 3.
+Proof. vm_compute. repeat split; reflexivity. Qed.
